@@ -288,6 +288,14 @@ impl Array8 {
             .read_exact(&mut data)
             .map_err(insufficient_data("data"))?;
 
+        // update() decrements the count for every zero register it fills
+        let actual_zeros = data.iter().filter(|&&v| v == 0).count();
+        if actual_zeros != num_zeros as usize {
+            return Err(Error::deserial(format!(
+                "num_zeros is {num_zeros} but {actual_zeros} registers are zero"
+            )));
+        }
+
         // Create estimator and restore state
         let mut estimator = HipEstimator::new(lg_config_k);
         estimator.set_hip_accum(hip_accum);
